@@ -421,8 +421,29 @@ def check(ctx):
     for r in returns_of(an, tp):
         v = r.ast.value
         if isinstance(v, ast.Call) and any(t.kind == "ctor" and t.cls is DV for n in an.cfg(tp).nodes_for(v) for t in an.targets(tp, n)):
-            names = [ast.unparse(a) for a in v.args]
-            oko = len(names) == 3 and "salt" in names[0] and "digest" in names[1] and "algorithm" in names[2]
+            # which expression each component of the tuple receives: by position (the declared field order), by keyword, or
+            # through `**parts` where parts is a local dict filled with constant keys
+            order = [st.target.id for st in DV.node.body if isinstance(st, ast.AnnAssign) and isinstance(st.target, ast.Name)] or ["salt", "digest", "algorithm"]
+            got = {}
+            for i_, a_ in enumerate(v.args):
+                if not isinstance(a_, ast.Starred) and i_ < len(order):
+                    got[order[i_]] = ast.unparse(a_)
+            for kw in v.keywords:
+                if kw.arg is not None:
+                    got[kw.arg] = ast.unparse(kw.value)
+                elif isinstance(kw.value, ast.Name):
+                    for x_ in ast.walk(tp.node):
+                        if isinstance(x_, ast.Assign) and len(x_.targets) == 1 and isinstance(x_.targets[0], ast.Subscript) and isinstance(x_.targets[0].value, ast.Name) \
+                                and x_.targets[0].value.id == kw.value.id and key_const(x_.targets[0].slice) is not None:
+                            got[key_const(x_.targets[0].slice)] = ast.unparse(x_.value)
+                        if isinstance(x_, ast.Assign) and len(x_.targets) == 1 and isinstance(x_.targets[0], ast.Name) and x_.targets[0].id == kw.value.id \
+                                and isinstance(x_.value, ast.Dict):
+                            for k_, v_ in zip(x_.value.keys, x_.value.values):
+                                if k_ is not None and key_const(k_) is not None:
+                                    got[key_const(k_)] = ast.unparse(v_)
+            names = [got.get(nm, "?") for nm in order]
+            oko = len(order) == 3 and all(("'%s'" % nm in got.get(nm, "") or '"%s"' % nm in got.get(nm, "") or nm in got.get(nm, "")) for nm in ("salt", "digest")) \
+                and "algorithm" in got.get("algorithm", "") and "digest" not in got.get("salt", "") and "salt" not in got.get("digest", "")
             ctx.ob("codec.component-order", tp, v, oko, "DigestValue(salt, digest, algorithm)" if oko else "components rebuilt in the wrong order: %s" % names, node=r)
     # plaintext in a file is hashed: every return taken for a str value is self._hash(value)
     str_rets = []
